@@ -313,6 +313,23 @@ def run(ctx):
             sln = {i: l for i, l in enumerate(sc.ln) if i >= g['ngram']}
             if gln != sln:
                 viol.append({'property': 'C07', 'kind': 'omen-length-loaders-differ', 'witness': {'passwords': pws, 'encoding': enc}})
+    # 3b. whatever the seed: a list whose base-structure probabilities (count / total, each correctly rounded) add up to 0.9999999999999999 -
+    # every number of grammar.txt is read back as that number by the guesser (no flag: nothing is rescaled) and by the scorer
+    tfb = os.path.join(root, 'base_sum.txt')
+    with open(tfb, 'w', encoding='utf-8') as f:
+        f.write('hello\n' * 12 + 'hello1\n')
+    rdb = os.path.join(common.scratch_dir('rules'), 'c07base')
+    okb, _ = common.train(tfb, rdb, ngram=4, coverage=0.6)
+    cases += 1
+    if okb:
+        rows_b = [ln.rsplit('\t', 1) for ln in open(os.path.join(rdb, 'Grammar', 'grammar.txt'), encoding='utf-8').read().split('\n') if ln]
+        gb = common.load_grammar(rdb)
+        got_b = [(''.join(x for x in b['replacements'] if not x.startswith('C')), f2h(b['prob'])) for b in gb.base]
+        want_b = [(st, f2h(float(pr))) for st, pr in rows_b]
+        if got_b != want_b:
+            viol.append({'property': 'C07', 'kind': 'guesser-base-structures-differ-from-file', 'loaded': str(got_b)[:200], 'file': str(want_b)[:200],
+                         'witness': {'passwords': ['hello'] * 12 + ['hello1'], 'encoding': 'utf-8', 'coverage': 0.6}})
+        dist['base_sum_below_one'] = abs(sum(float(pr) for _, pr in rows_b) - 1.0) > 0
     # 4. `_load_from_multiple_files` against the Lean model: several files per variable, a name listed twice, missing files
     multi_meta = {}
     for _ in range(ctx.scale(40, 400)):
